@@ -693,6 +693,19 @@ class CustomSD(BaseCorrelations):
         if shape == 'upper-triangle':
             integral = self.eta_function(time_1 + delta, **kwargs) \
                        - self.eta_function(time_1, **kwargs)
+            if time_1 != 0.0:
+                # the t'' integration starts at 0 and not at time_1, which
+                # adds -delta * eta'(time_1); eta' is the integral of the
+                # correlation function (eta'' = -C in imaginary time).
+                eta_prime = _complex_integral(
+                    lambda tau: self.correlation(tau, **kwargs),
+                    a=0.0,
+                    b=time_1,
+                    epsrel=epsrel,
+                    limit=subdiv_limit)
+                if matsubara:
+                    eta_prime = -eta_prime
+                integral = integral - delta * eta_prime
         elif shape == 'square':
             integral = self.eta_function(time_1 + delta, **kwargs) \
                        - 2.0 * self.eta_function(time_1, **kwargs) \
